@@ -1,9 +1,24 @@
 /-
   Property C09 — Epoch: nothing becomes reclaimable while a reader that may see it is in a region.
-  Property theorems only; the model is Babylon/Epoch/Model.lean over the view memory model
-  Babylon/Core/MemView.lean, helper lemmas and invariants are in Babylon/Epoch/Lemmas*.lean.
+
+  Property theorems only.  Model: Babylon/Epoch/Model.lean (one step = one atomic operation of
+  `babylon::Epoch`, memory orders from the generated file) over the release/acquire VIEW memory
+  model Babylon/Core/MemView.lean: a load may read any message not older than the thread's view, so
+  every theorem below quantifies over all interleavings AND all store-buffer-style delays, any number
+  of threads / accessors / ticks / scans, nesting, Accessor hand-over, slot reuse, table growth.
+  Invariant and per-step lemmas: Babylon/Epoch/Inv.lean, Steps1 … Steps10, Lemmas.lean.
+
+  Reading guide (ghost variables of the model):
+    `s.fv i = some V`   the region of slot `i` is open; `V` = its holder's view right after the fence
+                        that ends `lock` — every load inside the region reads at or after `V`;
+    `s.pv e`            view of the ticking thread just before `tick()` returned `e` — contains every
+                        unlink that precedes that tick in program order;
+    `s.tkv e = some W`  tick `e` is complete, `W` = the ticker's view after it;
+    `s.recl e = true`   a `low_water_mark()` whose start view contained `W` (it happens after tick `e`)
+                        returned a value `≥ e`: epoch `e` may be reclaimed.
 -/
-import Babylon.Epoch.Model
+import Babylon.Epoch.Lemmas
+import Babylon.Epoch.Exec
 
 namespace Babylon.Properties.C09
 open Babylon.Epoch Babylon.Gen.Epoch Babylon.Core Babylon.Core.MemView
@@ -31,5 +46,355 @@ theorem gen_structure :
     scanBoundIsMinCountSize = true ∧ scanCountFromAccessorNumber = true ∧ scanFallsBackToThreadIds = true ∧
     scanStartsFromMax = true ∧ scanTakesMinimum = true ∧ scanSnapshotBeforeCount = true ∧
     slotInitIsMax = true ∧ slotInitLockTimes = 0 ∧ versionOffset = 0 ∧ maxVersion = 2 ^ 64 - 1 := by decide
+
+/-- **The memory orders written in the source satisfy what the safety proof needs**: the reader's
+fence is `seq_cst`, `tick` is a `seq_cst` RMW (or a releasing RMW followed by a `seq_cst` fence),
+the id allocator's free list hands ids over with release / acquire.  A weakened order in
+`epoch.h` / `id_allocator.hpp` makes this obligation fail. -/
+theorem gen_orders_safe : genOrders.Safe :=
+  ⟨by decide, by decide, by decide, by decide⟩
+
+/-- orders the model does not need for safety but was written against (unlock's release store and
+the scan's acquire loads order the reader's accesses before the reclamation, see
+`epoch_unlock_scan_hb`) -/
+theorem gen_orders_other :
+    unlockStoreOrd = .rel ∧ scanSlotOrd = .acq ∧ countLoadOrd = .acq ∧ tableLoadOrd = .acq ∧
+    lockLoadOrd = .rlx ∧ lockStoreOrd = .rlx ∧ mintOrd = .rlx := by decide
+
+/-! ### The property -/
+
+/-- states reachable in the view-memory model: every program, thread count, interleaving, stale read -/
+abbrev Reach (c : Cfg) (o : Orders) (s : State) : Prop := Reachable (· = State.init c) (Step c o) s
+
+/-- **epoch_safety_view.**  In every execution of the view model: once epoch `e` is reclaimable —
+some `low_water_mark()` that happens after the tick returning `e` (its start view contains the
+tick's view) returned `m ≥ e` — every region that is open, no matter when it was opened or which
+thread holds its Accessor now, has a view that contains the ticker's view before that tick; so the
+region cannot observe anything older than what was unlinked before the tick. -/
+theorem epoch_safety_view (c : Cfg) (o : Orders) (hbs : 0 < c.bs) (ho : o.Safe) (s : State) (hr : Reach c o s)
+    (e i : Nat) (V : View Loc) (hrecl : s.recl e = true) (hfv : s.fv i = some V) : s.pv e ≤ V :=
+  ((inv_reachable c o hbs ho s hr).recl e hrecl).2 i V hfv
+
+/-- the same for the orders of the source being checked -/
+theorem epoch_safety (c : Cfg) (hbs : 0 < c.bs) (s : State) (hr : Reach c genOrders s)
+    (e i : Nat) (V : View Loc) (hrecl : s.recl e = true) (hfv : s.fv i = some V) : s.pv e ≤ V :=
+  epoch_safety_view c genOrders hbs gen_orders_safe s hr e i V hrecl hfv
+
+/-- … hence every load of the shared cell (any client location) by the holder of an open region,
+after epoch `e` became reclaimable, reads the message the ticker had written / seen before tick `e`
+or a newer one: it reads `new`, never `old`. -/
+theorem epoch_region_reads_new (c : Cfg) (o : Orders) (hbs : 0 < c.bs) (ho : o.Safe) (s : State) (hr : Reach c o s)
+    (e i h : Nat) (V : View Loc) (hrecl : s.recl e = true) (hfv : s.fv i = some V) (hown : s.own i = .held h)
+    (cc : Nat) (oo : Core.Ord) (ts : Nat) (s' : State) (l : Label) (hload : clientLoad s h cc oo ts = some (s', l)) :
+    (s.pv e).get (.cl cc) ≤ ts := by
+  have inv := inv_reachable c o hbs ho s hr
+  have h1 := epoch_safety_view c o hbs ho s hr e i V hrecl hfv (.cl cc)
+  have h2 := (inv.region i V hfv).av (.cl cc)
+  have h3 := (inv.acc i h hown).1 (.cl cc)
+  unfold clientLoad at hload
+  split at hload
+  · cases hload
+  · rename_i m v hread
+    have h4 := read_respects_view hread
+    simp only [State.cur] at h3
+    omega
+
+/-- Equivalent form: a region that can still observe `old` forces the mark below `e`.  Whenever a
+`low_water_mark()` of thread `t` finishes with result `mn` (the state `finishScan s m t mn` is
+reached), for every completed tick `e` the scan happens after and every open region whose view does
+not contain the ticker's view before that tick: `mn < e`. -/
+theorem epoch_old_visible_forces_low_mark (c : Cfg) (o : Orders) (hbs : 0 < c.bs) (ho : o.Safe)
+    (s : State) (m : Mem Loc) (t mn : Nat) (hr : Reach c o (finishScan s m t mn))
+    (e i : Nat) (W V : View Loc) (hW : s.tkv e = some W) (hafter : W ≤ s.sv t) (he : 1 ≤ e)
+    (hfv : s.fv i = some V) (hold : ¬ s.pv e ≤ V) : mn < e := by
+  rcases Nat.lt_or_ge mn e with h | h
+  · exact h
+  · exfalso
+    apply hold
+    apply epoch_safety_view c o hbs ho _ hr e i V _ hfv
+    simp [finishScan, hW, he, h, hafter]
+
+/-- **epoch_new_slot_safe.**  A region whose slot index is outside the range `[0, B)` the scan
+decided to read (its Accessor / thread id was created concurrently with the scan, or the slot table
+grew): the scan's start view cannot contain the region's view, so the region's fence came after
+every tick the scan happens after, and the region sees what those tickers saw. -/
+theorem epoch_new_slot_safe (c : Cfg) (o : Orders) (hbs : 0 < c.bs) (ho : o.Safe) (s : State) (hr : Reach c o s)
+    (t B j mn : Nat) (hpc : s.pc t = .sc3 B j mn) (i : Nat) (V : View Loc) (hfv : s.fv i = some V) (hout : B ≤ i)
+    (e : Nat) (W : View Loc) (hW : s.tkv e = some W) (hafter : W ≤ s.sv t) : W ≤ V ∧ s.pv e ≤ V := by
+  have inv := inv_reachable c o hbs ho s hr
+  have R := inv.region i V hfv
+  have hp := inv.pcs t
+  unfold PcOK at hp
+  rw [hpc] at hp
+  obtain ⟨_, _, hbound⟩ := hp
+  have hnle : ¬ V ≤ s.sv t := by
+    intro hle
+    have : i < B := by
+      apply hbound i (Nat.lt_of_lt_of_le R.cnt (hle _))
+      obtain ⟨msg, hmsg, hcap⟩ := R.cap
+      exact ⟨V.get .tbl, msg, hle _, hmsg, hcap⟩
+    omega
+  rcases inv.dich i V e W hfv hW with h | h
+  · exact absurd (View.le_trans h hafter) hnle
+  · exact ⟨h, View.le_trans (inv.tick e W hW).1 h⟩
+
+/-- **epoch_nesting** (invariant part).  While a region is open the nesting counter is positive;
+and a positive counter with nobody inside `lock`'s publishing sequence means the region is open:
+nested `lock` / `unlock` neither close nor re-open it. -/
+theorem epoch_nesting (c : Cfg) (o : Orders) (hbs : 0 < c.bs) (ho : o.Safe) (s : State) (hr : Reach c o s) (i : Nat) :
+    (∀ V, s.fv i = some V → 1 ≤ s.lt i) ∧
+    (1 ≤ s.lt i → (∀ t, (s.pc t).lkAt i = false) → ∃ V, s.fv i = some V) := by
+  have inv := inv_reachable c o hbs ho s hr
+  refine ⟨fun V h => (inv.region i V h).depth, fun h1 h2 => ?_⟩
+  cases hfv : s.fv i with
+  | some V => exact ⟨V, rfl⟩
+  | none => have := inv.depth i hfv h2; omega
+
+/-- a `lock` at depth `≥ 1` is one table load: it writes no memory, publishes nothing, and only
+bumps the counter -/
+theorem epoch_nesting_lock (c : Cfg) (o : Orders) (s s' : State) (t i ch : Nat) (l : Label)
+    (hpc : s.pc t = .lk0 i) (hdepth : 1 ≤ s.lt i) (hstep : stepThread c o s t ch = some (s', l)) :
+    s'.pc t = .idle ∧ s'.mem.hist = s.mem.hist ∧ s'.fv = s.fv ∧ s'.pub = s.pub ∧ s'.lt i = s.lt i + 1 := by
+  unfold stepThread at hstep
+  rw [hpc] at hstep
+  simp only at hstep
+  split at hstep
+  · cases hstep
+  · rename_i m nb hread
+    cases hstep
+    have hd : ¬ s.lt i + lockDepthStep = lockPublishDepth := by
+      simp [lockDepthStep, lockPublishDepth]; omega
+    simp only [hd, if_false]
+    exact ⟨by simp, Mem.read_hist hread, rfl, rfl, by simp [lockDepthStep]⟩
+
+/-- an `unlock` at depth `≥ 2` likewise -/
+theorem epoch_nesting_unlock (c : Cfg) (o : Orders) (s s' : State) (t i ch : Nat) (l : Label)
+    (hpc : s.pc t = .ul0 i) (hdepth : 2 ≤ s.lt i) (hstep : stepThread c o s t ch = some (s', l)) :
+    s'.pc t = .idle ∧ s'.mem.hist = s.mem.hist ∧ s'.fv = s.fv ∧ s'.pub = s.pub ∧ s'.lt i = s.lt i - 1 := by
+  unfold stepThread at hstep
+  rw [hpc] at hstep
+  simp only at hstep
+  split at hstep
+  · cases hstep
+  · rename_i m nb hread
+    cases hstep
+    have hd : ¬ s.lt i = unlockClearDepth := by simp [unlockClearDepth]; omega
+    simp only [hd, if_false]
+    exact ⟨by simp, Mem.read_hist hread, rfl, rfl, by simp [unlockDepthStep]⟩
+
+/-- **epoch_released_never_holds.**  A slot with no open region — unlocked Accessor, released
+Accessor (free slot), never allocated slot — holds `UINT64_MAX` as its latest version, and every
+thread whose view includes the last operation on that slot (`av i`: e.g. a scan that happens after the
+unlock) reads `UINT64_MAX` from it, whatever message the memory model lets it pick: it does not
+lower the minimum. -/
+theorem epoch_released_never_holds (c : Cfg) (o : Orders) (hbs : 0 < c.bs) (ho : o.Safe) (s : State) (hr : Reach c o s)
+    (i : Nat) (hfv : s.fv i = none) (hno : ∀ t, (s.pc t).lk3At i = false) :
+    (∃ msg, (s.mem.hist (.slot i))[s.mem.len (.slot i) - 1]? = some msg ∧ msg.val = MAX) ∧
+    ∀ t ts oo m' v, s.av i ≤ s.cur t → s.mem.read t (.slot i) oo ts = some (m', v) → v = MAX := by
+  have inv := inv_reachable c o hbs ho s hr
+  obtain ⟨⟨msg, hmsg, hval⟩, hav⟩ := inv.closed i hfv hno
+  refine ⟨⟨msg, hmsg, hval⟩, fun t ts oo m' v hle hread => ?_⟩
+  have h1 := read_respects_view hread
+  have h2 := Mem.read_ts_lt hread
+  have h3 := hle (.slot i)
+  simp only [State.cur] at h3
+  obtain ⟨msg', hm', hv', _, _⟩ := Mem.read_spec hread
+  have : ts = s.mem.len (.slot i) - 1 := by omega
+  rw [this, hmsg] at hm'
+  cases hm'
+  rw [hv', hval]
+
+/-- the hypotheses of `epoch_released_never_holds` hold for an unlocked, a released and a never
+allocated slot -/
+theorem epoch_unlocked_is_closed (c : Cfg) (o : Orders) (hbs : 0 < c.bs) (ho : o.Safe) (s : State) (hr : Reach c o s)
+    (i : Nat) : (s.lt i = 0 → s.fv i = none) ∧ (s.own i = .free → s.lt i = 0 ∧ s.fv i = none) ∧
+      (s.own i = .unalloc → s.lt i = 0 ∧ s.fv i = none) := by
+  have inv := inv_reachable c o hbs ho s hr
+  refine ⟨fun h => ?_, fun h => ?_, fun h => ?_⟩
+  · cases hfv : s.fv i with
+    | none => rfl
+    | some V => have := (inv.region i V hfv).depth; omega
+  · obtain ⟨_, _, _, _, h4, h5⟩ := inv.free i h; exact ⟨h4, h5⟩
+  · obtain ⟨h1, h2, _⟩ := inv.unalloc2 i h; exact ⟨h1, h2⟩
+
+/-- a moved Accessor keeps its slot, its published version and its region -/
+theorem epoch_move_keeps_slot (s : State) (i t2 : Nat) :
+    (move s i t2).mem = s.mem ∧ (move s i t2).fv = s.fv ∧ (move s i t2).pub = s.pub ∧ (move s i t2).lt = s.lt ∧
+    (move s i t2).own i = .held t2 := ⟨rfl, rfl, rfl, rfl, by simp [move]⟩
+
+/-- **epoch_stale_gver_conservative.**  The version a region publishes is the value of *some*
+message of the global version (possibly a stale one): it never exceeds the latest global version, so
+a reader that read a stale (smaller) version only lowers the mark; `epoch_safety_view` holds for
+every message the relaxed load may pick. -/
+theorem epoch_stale_gver_conservative (c : Cfg) (o : Orders) (hbs : 0 < c.bs) (ho : o.Safe) (s : State)
+    (hr : Reach c o s) (i : Nat) (V : View Loc) (hfv : s.fv i = some V) :
+    s.pub i + 1 ≤ s.mem.len .gver ∧
+    ∃ msg, (s.mem.hist (.slot i))[s.mem.len (.slot i) - 1]? = some msg ∧ msg.val = s.pub i := by
+  have inv := inv_reachable c o hbs ho s hr
+  have R := inv.region i V hfv
+  refine ⟨R.pubLt, ?_⟩
+  obtain ⟨msg, hmsg, hval⟩ := R.val
+  have : s.mem.len (.slot i) - 1 = V.get (.slot i) := by have := R.last; omega
+  exact ⟨msg, by rw [this]; exact hmsg, hval⟩
+
+/-- **epoch_unlock_scan_hb.**  Message passing from `unlock` to the scan: a thread that
+acquire-loads the `UINT64_MAX` stored by a release `unlock` sees everything the reader saw or did
+inside the region — the reclamation that follows is ordered after the reader's accesses. -/
+theorem epoch_unlock_scan_hb (m : Mem Loc) (reader scanner i : Nat) (o o' : Core.Ord) {m2 m3 : Mem Loc} {v : Nat}
+    (hrel : o.releases = true) (hacq : o'.acquires = true)
+    (hext : (m.write reader (.slot i) o MAX).Ext m2) (h : m2.read scanner (.slot i) o' (m.len (.slot i)) = some (m3, v)) :
+    v = MAX ∧ (m.tv reader).cur ≤ (m3.tv scanner).cur :=
+  mp_release_acquire m reader scanner (.slot i) o o' MAX hrel hacq hext h
+
+/-- the orders of the source give that edge -/
+theorem gen_unlock_scan_orders : genOrders.unlockStore.releases = true ∧ genOrders.scanSlot.acquires = true := by decide
+
+/-! ### The sequentially consistent corollary -/
+
+theorem stepSC_step {c : Cfg} {o : Orders} {s s' : State} (h : StepSC c o s s') : Step c o s s' := by
+  cases h
+  case act t l hst => exact Step.act s t _ s' l hst
+  case other hs _ _ => exact hs
+
+/-- **epoch_safety_sc.**  The same statement for sequentially consistent executions (every load
+reads the latest message) — what VRT replays; a special case of the view theorem. -/
+theorem epoch_safety_sc (c : Cfg) (o : Orders) (hbs : 0 < c.bs) (ho : o.Safe) (s : State)
+    (hr : Reachable (· = State.init c) (StepSC c o) s)
+    (e i : Nat) (V : View Loc) (hrecl : s.recl e = true) (hfv : s.fv i = some V) : s.pv e ≤ V := by
+  apply epoch_safety_view c o hbs ho s _ e i V hrecl hfv
+  induction hr with
+  | base h => exact Reachable.base h
+  | tail _ hst ih => exact Reachable.tail ih (stepSC_step hst)
+
+/-! ### Negative controls: what a weakened order turns the theorem into -/
+
+/-- one block of one slot, Accessor style -/
+def cfgCE : Cfg := { tls := false, bs := 1, n0 := 0, nb0 := 1 }
+
+/-- the reader's fence weakened from `seq_cst` to `release` -/
+def weakFenceOrders : Orders := { genOrders with lockFence := .rel }
+
+/-- thread 1: create accessor 0, lock (load version 0, store it, fence);
+thread 2: `ptr := 1` (release), tick → 1, publish on a channel (release);
+thread 3: acquire the channel, low_water_mark(): reads the table, the accessor count 1, and a STALE
+`UINT64_MAX` from slot 0 (admissible: nothing orders the reader's store before the tick). -/
+def weakFenceSchedule : List Mv := [
+  .create 1, .act 1 0, .act 1 0,
+  .lock 1 0, .act 1 0, .act 1 0, .act 1 0, .act 1 0,
+  .cstore 2 0 .rel 1, .tick 2, .act 2 0,
+  .cstore 2 1 .rel 1, .cload 3 1 .acq 1,
+  .scan 3, .act 3 0, .act 3 1, .act 3 0]
+
+/-- epoch 1 is reclaimable, region 0 is open, its view lacks the unlink, and its next load of `ptr`
+(client cell 0) may return the old value 0 -/
+def unsafeState (s : State) : Bool :=
+  s.recl 1 &&
+  (match s.fv 0 with
+   | some V => !(decide (s.pv 1 ≤ V)) && (match clientLoad s 1 0 .acq 0 with
+       | some (_, .ld "cl" 0 _ v) => v == 0
+       | _ => false)
+   | none => false)
+
+/-- **epoch_without_fence_counterexample.**  With the reader's `seq_cst` fence replaced by a release
+fence the safety statement is false: an explicit 3-thread execution of the view model reaches a
+state where epoch 1 is reclaimable while an open region can still read the old pointer. -/
+theorem epoch_without_fence_counterexample :
+    ∃ s, Reach cfgCE weakFenceOrders s ∧ s.recl 1 = true ∧
+      ∃ V, s.fv 0 = some V ∧ ¬ s.pv 1 ≤ V ∧ ∃ s', clientLoad s 1 0 .acq 0 = some (s', .ld "cl" 0 .acq 0) := by
+  have h : observe cfgCE weakFenceOrders weakFenceSchedule unsafeState = true := by decide
+  obtain ⟨s, hr, hp⟩ := observe_sound h
+  refine ⟨s, hr, ?_⟩
+  unfold unsafeState at hp
+  simp only [Bool.and_eq_true] at hp
+  obtain ⟨h1, h2⟩ := hp
+  refine ⟨h1, ?_⟩
+  split at h2
+  · rename_i V hV
+    simp only [Bool.and_eq_true, Bool.not_eq_true', decide_eq_false_iff_not] at h2
+    refine ⟨V, hV, h2.1, ?_⟩
+    have h3 := h2.2
+    split at h3
+    · rename_i s' o' v hl
+      simp only [beq_iff_eq] at h3
+      subst h3
+      unfold clientLoad at hl ⊢
+      split at hl
+      · cases hl
+      · rename_i m v' hread
+        simp only [Option.some.injEq, Prod.mk.injEq] at hl
+        obtain ⟨rfl, hl2⟩ := hl
+        simp only [actLd, Loc.name] at hl2
+        cases hl2
+        exact ⟨_, rfl⟩
+    · cases h3
+  · cases h2
+
+/-- positive control: with the orders of the source the same schedule is NOT an execution — the
+stale read of the slot is inadmissible (the tick's view contains the reader's store) -/
+theorem epoch_with_fence_schedule_blocked :
+    run cfgCE genOrders (State.init cfgCE) weakFenceSchedule = none ∧
+    (run cfgCE genOrders (State.init cfgCE) (weakFenceSchedule.take 16)).isSome = true := by decide
+
+/-- thread 2 unlinks (`ptr := 1`, release) and starts the tick of the NON-x86 branch (relaxed RMW);
+thread 1 locks, reads the NEW version 1, publishes it, fences; thread 2 fences and scans: it reads
+version 1 from the slot, so `low_water_mark() = 1 ≥ 1`. -/
+def nonX86Schedule : List Mv := [
+  .create 1, .act 1 0, .act 1 0,
+  .cstore 2 0 .rel 1, .tick 2, .act 2 0,
+  .lock 1 0, .act 1 0, .act 1 1, .act 1 0, .act 1 0,
+  .act 2 0,
+  .scan 2, .act 2 0, .act 2 1, .act 2 1]
+
+/-- **epoch_tick_nonx86_counterexample.**  The branch of `tick` this build does NOT compile
+(`fetch_add(relaxed)` followed by `atomic_thread_fence(seq_cst)`, taken from the source by the
+translator as `altOrders`) is unsafe in the view model: the version increment is not ordered after
+the unlink, a reader can publish the new version without seeing the unlink, and the mark reaches the
+tick value while that reader can still read the old pointer.  (With a *releasing* RMW the
+hypothesis `Orders.Safe` of `epoch_safety_view` holds again.) -/
+theorem epoch_tick_nonx86_counterexample (h : altOrders.tickRmw = .rlx ∧ altOrders.tickFence = some .sc) :
+    ∃ s, Reach cfgCE altOrders s ∧ s.recl 1 = true ∧ s.ret 2 = some 1 ∧
+      ∃ V, s.fv 0 = some V ∧ ¬ s.pv 1 ≤ V := by
+  have _ := h
+  have hobs : observe cfgCE altOrders nonX86Schedule
+      (fun s => unsafeState s && (s.ret 2 == some 1)) = true := by decide
+  obtain ⟨s, hr, hp⟩ := observe_sound hobs
+  refine ⟨s, hr, ?_⟩
+  simp only [Bool.and_eq_true, beq_iff_eq] at hp
+  obtain ⟨hu, hret⟩ := hp
+  unfold unsafeState at hu
+  simp only [Bool.and_eq_true] at hu
+  obtain ⟨h1, h2⟩ := hu
+  refine ⟨h1, hret, ?_⟩
+  split at h2
+  · rename_i V hV
+    simp only [Bool.and_eq_true, Bool.not_eq_true', decide_eq_false_iff_not] at h2
+    exact ⟨V, hV, h2.1⟩
+  · cases h2
+
+/-- the other branch of the source is (still) the one analysed above -/
+theorem gen_alt_tick_branch : altOrders.tickRmw = .rlx ∧ altOrders.tickFence = some .sc := by decide
+
+/-! ### Non-vacuity: the hypotheses of the theorems are satisfiable by real executions -/
+
+/-- A region opened BEFORE the unlink is still open when the scan runs: the mark stays below the tick
+(`low_water_mark() = 0 < 1`, epoch 1 not reclaimable).  Then the reader unlocks, a second scan
+returns `UINT64_MAX`, epoch 1 becomes reclaimable, and a region opened afterwards is covered by
+`epoch_safety_view` non-trivially. -/
+def heldBackSchedule : List Mv := [
+  .create 1, .act 1 0, .act 1 0,
+  .lock 1 0, .act 1 0, .act 1 0, .act 1 0, .act 1 0,
+  .cstore 2 0 .rel 1, .tick 2, .act 2 0,
+  .scan 2, .act 2 0, .act 2 1, .act 2 1]
+
+example : observe cfgCE genOrders heldBackSchedule
+    (fun s => s.ret 2 == some 0 && !s.recl 1 && (s.fv 0).isSome) = true := by decide
+
+example : observe cfgCE genOrders (heldBackSchedule ++ [
+      .unlock 1 0, .act 1 0, .act 1 0,
+      .scan 2, .act 2 0, .act 2 1, .act 2 2,
+      .lock 1 0, .act 1 0, .act 1 1, .act 1 0, .act 1 0])
+    (fun s => s.ret 2 == some MAX && s.recl 1 && (match s.fv 0 with
+       | some V => decide (s.pv 1 ≤ V) && s.pub 0 == 1
+       | none => false)) = true := by decide
 
 end Babylon.Properties.C09
